@@ -121,6 +121,7 @@ type Stats struct {
 	LeakedTasks     uint64
 	Selects         uint64
 	TimersFired     uint64
+	TimersMade      uint64
 	ForcedGCs       uint64
 	HotNaps         uint64
 	Fingerprint     uint64
@@ -247,7 +248,7 @@ func Y(site uint32) {
 	}
 	if t.opSteps > softBudget {
 		if t.opSteps > opBudget {
-			abort("no-progress", noProgressDetail(t, site))
+			abort(stallKind("no-progress"), stallWhy()+noProgressDetail(t, site))
 		}
 		// Starvation guard: an operation that has run unusually long may be
 		// waiting (legitimately) for another task that the current policy never
@@ -602,7 +603,7 @@ func Block(addr unsafe.Pointer) {
 	}
 	if to < 0 {
 		if clientsPending() {
-			abort("deadlock", deadlockDetail())
+			abort(stallKind("deadlock"), stallWhy()+deadlockDetail())
 		}
 		// only library-spawned goroutines are left and none can run: they are
 		// leaked, which C19 does not speak about. End the run normally.
@@ -702,6 +703,12 @@ func finish(me int32) {
 	if t.state != stDone && t.client {
 		clientsLeft--
 	}
+	if (aborted || allDone) && !t.client && t.state != stDone {
+		// a goroutine the library started is still alive at the end of the run;
+		// the simulator ends it here (it cannot take turns outside a run), which
+		// the real program would not do
+		reapedTotal++
+	}
 	t.state = stDone
 	t.inOp = false
 	if aborted || allDone {
@@ -730,8 +737,8 @@ func finish(me int32) {
 		}
 		if blocked {
 			aborted = true
-			stats.Aborted = "deadlock"
-			stats.AbortDetail = deadlockDetail()
+			stats.Aborted = stallKind("deadlock")
+			stats.AbortDetail = stallWhy() + deadlockDetail()
 			return
 		}
 		allDone = true
@@ -882,6 +889,8 @@ func reset(s Sched, f Faults) {
 	resetPools()
 	resetChans()
 	resetTimers()
+	resetTicks()
+	resetCtx()
 }
 
 //go:norace
@@ -1004,3 +1013,33 @@ func (r *rngState) next() uint64 {
 	s[3] = rotl(s[3], 45)
 	return res
 }
+
+// stallKind downgrades a deadlock or stall verdict to a harness limit when the
+// run hit the bound on ticker firings: the bound, not the library, may be what
+// stopped progress.
+//
+//go:norace
+func stallKind(k string) string {
+	if tickerCapped() || reapedTotal > 0 {
+		return "harness-limit"
+	}
+	return k
+}
+
+//go:norace
+func stallWhy() string {
+	switch {
+	case tickerCapped():
+		return "stall after the bound on ticker firings was reached (not judged): "
+	case reapedTotal > 0:
+		return "stall after library goroutines of an earlier run were ended by the simulator (not judged): "
+	}
+	return ""
+}
+
+// reapedTotal counts, over the life of the process, the library goroutines that
+// were still alive when their run ended and were ended by the simulator. If the
+// library relies on such a goroutine later (a worker started once), a later
+// caller waits for something the simulator removed: a stall after that is the
+// simulator's doing and is reported as a harness limit, never as a deadlock.
+var reapedTotal int
